@@ -36,3 +36,10 @@ def run(ctx):
     H.r15_2_do_nothing_exits(ctx, 'R05.10')
     H.r14_4_matches_total(ctx, 'R05.5')
     H.r15_4_no_node_twice(ctx, 'R05.6')
+    # what is dumped for one type is read back as that type only, under every sink option that the YAML dump sites pass
+    # (an object referenced twice is dumped as anchor + alias: the second reference meets the node the first one retagged;
+    # enum members are not aliased by the dumper, so that kind is left to C18)
+    from . import alias_rules as A
+    A.r18_3_written_vs_accepted(ctx, 'R05.11', skip_kinds=('enum',))
+    from . import shared as S
+    S.r12_sinks(ctx)
